@@ -22,8 +22,8 @@
   **On the implementation model itself** (Proofs/Rounds.lean), without assuming the fields:
 
     * `model_converges` — for revision lists of any length (MySQL reader model, default field order), every step inside
-      the scope of `C01.schema_on_reference_engine` (no foreign keys or inline PRIMARY KEY; common tables
-      order-compatible with the same primary key, outside the recorded region): the history `histM` the workflow writes —
+      the scope of `C01.schema_on_reference_engine` (no inline PRIMARY KEY; common tables
+      order-compatible with the same primary key, outside the recorded regions): the history `histM` the workflow writes —
       each printed up migration appended as it reaches the text — is computed without error, is accepted by the
       reference engine statement by statement, and describes a schema `DB.equiv` to the newest revision's.  The
       induction composes the one-step theorem with: the printed migration stays inside the vocabulary the one-step
